@@ -209,6 +209,60 @@ def compErrJson : CompErr → Json
   | .panic => Json.str "panic"
 
 
+
+/-! canonical trees of parsed conditions and matches (same shape as the harness reads from `Debug`) -/
+def bopJ : BOp → Json
+  | .and => "And"
+  | .or => "Or"
+
+def natStrJ (n : Nat) : Json := Json.str (toString n)
+
+partial def exprJson : Expr → Json
+  | .var v => Json.mkObj [("var", sJ v)]
+  | .allOfThem => "AllOfThem"
+  | .anyOfThem => "AnyOfThem"
+  | .noneOfThem => "NoneOfThem"
+  | .none => "None"
+  | .allOfVars p => Json.mkObj [("allv", sJ p)]
+  | .anyOfVars p => Json.mkObj [("anyv", sJ p)]
+  | .noneOfVars p => Json.mkObj [("nonev", sJ p)]
+  | .nOfThem n => Json.mkObj [("n", natStrJ n)]
+  | .nOfVars n p => Json.mkObj [("nv", Json.arr #[natStrJ n, sJ p])]
+  | .neg e => Json.mkObj [("neg", exprJson e)]
+  | .binop l o r => Json.mkObj [("bin", Json.arr #[exprJson l, bopJ o, exprJson r])]
+
+def hex16 (n : Nat) : String :=
+  let ds := (Nat.toDigits 16 n)
+  String.ofList (List.replicate (16 - ds.length) '0' ++ ds)
+
+/-- numbers: floats are reported by value class only when the bits are not available -/
+def numJson (fbits : Str → Option Nat) (src : Str) : Num → Json
+  | .uint v => Json.mkObj [("u", Json.num (Int.ofNat v))]
+  | .int v => Json.mkObj [("i", Json.num v)]
+  | .float _ => match fbits src with
+    | some b => Json.mkObj [("f", Json.str (hex16 b))]
+    | none => Json.mkObj [("f", Json.null)]
+
+def pathJson (p : M.XPath) : Json :=
+  Json.mkObj [("path", sJ p.path), ("segments", Json.arr (p.segments.map sJ).toArray)]
+
+def mopJ : MOp → Json
+  | .eq => "Eq" | .lt => "Lt" | .lte => "Lte" | .gt => "Gt" | .gte => "Gte" | .rex => "Rex" | .flag => "Flag"
+
+def matchJson (fbits : Str → Option Nat) : Match → Json
+  | .direct p op v =>
+    let vj : Json := match v with
+      | .str s => Json.mkObj [("str", sJ s)]
+      | .num n => Json.mkObj [("num", numJson fbits [] n)]
+      | .strOrNum s n => Json.mkObj [("strnum", Json.arr #[sJ s, numJson fbits s n])]
+      | .regex p => Json.mkObj [("regex", sJ p)]
+      | .bool b => Json.mkObj [("bool", Json.bool b)]
+      | .some => "Some"
+      | .none => "None"
+    Json.mkObj [("direct", Json.mkObj [("op", mopJ op), ("path", pathJson p), ("value", vj)])]
+  | .indirect p q => Json.mkObj [("indirect", Json.arr #[pathJson p, pathJson q])]
+  | .rule n => Json.mkObj [("rule", sJ n)]
+
 /-! spec-side decoding: structured operands and formula trees (never DSL text) -/
 def jMOp (s : String) : E MOp :=
   match s with
@@ -363,6 +417,48 @@ def handle (j : Json) : E Json := do
     let src ← jStr j "src"
     let id ← jInt (← j.getObjVal? "id")
     pure (Json.mkObj [("model", Json.bool (M.admits mo src id)), ("spec", Json.bool (S.admits mo src id))])
+  | "parse_cond" =>
+    let s ← jStr j "s"
+    let r : Json := match M.parseCond s with
+      | .ok e => Json.mkObj [("ast", exprJson e)]
+      | .err => "err"
+      | .panic => "panic"
+    pure (Json.mkObj [("model", r)])
+  | "parse_match" =>
+    let s ← jStr j "s"
+    let t ← match jOpt j "ext" with
+      | none => pure ({} : Tables)
+      | some e => jTables e
+    -- raw float bits for the canonical output
+    let fbitsTbl ← match (jOpt j "ext").bind (fun e => jOpt e "fp") with
+      | none => pure []
+      | some a => do
+        let a ← a.getArr?
+        a.toList.mapM (fun e => do
+          let k ← (← e.getArrVal? 0).getStr?
+          let v ← e.getArrVal? 1
+          match v with
+          | .str h => pure (k.toList, hexNat h)
+          | _ => pure (k.toList, none))
+    let x : Ext :=
+      { fparse := fun s => (t.fp.lookup s).getD none
+        rxOk := fun p => match t.rx.lookup p with
+          | some (ok, _) => ok
+          | none => false
+        rxMatch := fun _ _ => false }
+    -- the single numeric text of a match string is its literal: look it up by value
+    let fb : Str → Option Nat := fun src =>
+      match src with
+      | [] => (fbitsTbl.find? (fun p => p.2.isSome)).bind (·.2)
+      | s => (fbitsTbl.lookup s).getD none
+    let r : Json := match M.parseMatch x s with
+      | some m =>
+        let fb' : Str → Option Nat := match m with
+          | .direct _ _ (.num _) => fun _ => (fbitsTbl.lookup (M.sanitize ((M.parseDirect s).map (·.2.2) |>.getD []))).getD none
+          | _ => fb
+        Json.mkObj [("ast", matchJson fb' m)]
+      | none => "err"
+    pure (Json.mkObj [("model", r)])
   | "num_cmp" =>
     let a ← jValue (← j.getObjVal? "a")
     let b ← jValue (← j.getObjVal? "b")
